@@ -22,7 +22,7 @@ RULE = (
     "case = signature text (well-formed or corrupted) or a pair of signatures; non-trivial = >= 2 pairs or a corrupted string"
 )
 SPACE = {
-    "quick": "all 543836 signatures with <= 3 inputs, <= 2 outputs, <= 2 pairs per argument, <= 3 names, total pairs <= 4 (round trip, spaces, equivalence with 3 renamings and 2 non-renamings each 7th); every single-character deletion/substitution/insertion of the 2086 signatures with total pairs <= 2; Annotated spelling for total pairs <= 3 over 3 positions; name pool through the predefined-ufunc selection",
+    "quick": "all 543836 signatures with <= 3 inputs, <= 2 outputs, <= 2 pairs per argument, <= 3 names, total pairs <= 4 (round trip, spaces, equivalence with 3 renamings, 2-3 non-renamings and every other placement of '->' among the same arguments, each 7th); every single-character deletion/substitution/insertion of the 2086 signatures with total pairs <= 2; Annotated spelling for total pairs <= 3 over 3 positions (each 3rd also with blanks after commas / around colons); name pool through the predefined-ufunc selection",
     "thorough": "corruptions for total pairs <= 3 (over 3 positions); equivalence on every signature",
 }
 BOUNDS = {"quick": {"max_total": 4, "corrupt_total": 2}, "thorough": {"max_total": 4, "corrupt_total": 3}}
@@ -125,6 +125,11 @@ def check_equivalence(rec, sig, idx):
         n0, p0 = lst[pi][ai][qi]
         lst[pi][ai][qi] = (n0, G.POSITIONS[(G.POSITIONS.index(p0) + 1) % 5])
         variants.append(tuple([tuple(a) for a in part] for part in lst))
+    # (d) the same arguments in the same order with '->' at another place
+    allargs = list(sig[0]) + list(sig[1])
+    for k in range(1, len(allargs)):
+        if k != len(sig[0]):
+            variants.append((allargs[:k], allargs[k:]))
     for other in variants:
         if not all(len({n for n, p in a}) == len(a) for part in other for a in part):
             continue
@@ -196,17 +201,21 @@ def check_corrupted(rec, text, c):
     rec.violation("corruption", cls, case, "ValueError", str(s))
 
 
-def annotated_hints(sig):
+def annotated_hints(sig, spaces=0):
+    """spaces: 0 none; 1 a blank after each comma; 2 blanks around the colon and around the whole text"""
     ins, outs = sig
     ann = {}
+    sep = (",", ", ", " , ")[spaces]
+    col = (":", ":", " : ")[spaces]
+    wrap = (lambda t: t) if spaces < 2 else (lambda t: " " + t + " ")
     for i, a in enumerate(ins):
-        ann[f"a{i}"] = Annotated[np.ndarray, ",".join(f"{n}:{p}" for n, p in a)]
-    rets = [Annotated[np.ndarray, ",".join(f"{n}:{p}" for n, p in a)] for a in outs]
+        ann[f"a{i}"] = Annotated[np.ndarray, wrap(sep.join(f"{n}{col}{p}" for n, p in a))]
+    rets = [Annotated[np.ndarray, wrap(sep.join(f"{n}{col}{p}" for n, p in a))] for a in outs]
     ann["return"] = rets[0] if len(rets) == 1 else Tuple[tuple(rets)]
     return ann
 
 
-def check_annotated(rec, sig):
+def check_annotated(rec, sig, spaces=0):
     from typing import get_type_hints
 
     from xgcm.grid_ufunc import _GridUFuncSignature as S
@@ -214,13 +223,13 @@ def check_annotated(rec, sig):
     if any(len(a) == 0 for part in sig for a in part):
         return
     text = G.unparse(sig)
-    case = dict(kind="annotated", text=text)
+    case = dict(kind="annotated", text=text, spaces=spaces)
 
     def f(*a):
         return a
 
-    f.__annotations__ = annotated_hints(sig)
-    rec.case(("ann", text), True)
+    f.__annotations__ = annotated_hints(sig, spaces)
+    rec.case(("ann", text, spaces), True)
     try:
         s = S.from_type_hints(get_type_hints(f, include_extras=True))
     except Exception as e:
@@ -293,6 +302,8 @@ def run_shard(shard, tier, seed, rec):
         for idx, sig in enumerate(G.enumerate_signatures(max_total=3, positions=("center", "left", "outer"))):
             if idx % 4 == shard[1]:
                 check_annotated(rec, sig)
+                if (idx // 4) % 3 == 0:
+                    check_annotated(rec, sig, spaces=1 + (idx // 12) % 2)
 
 
 def replay_case(case, seed, rec):
@@ -302,7 +313,7 @@ def replay_case(case, seed, rec):
     elif k == "corrupt":
         check_corrupted(rec, case["origin"], case["text"])
     elif k == "annotated":
-        check_annotated(rec, G.parse(case["text"]))
+        check_annotated(rec, G.parse(case["text"]), case.get("spaces", 0))
     elif k == "pool":
         check_pool(rec)
         rec.viol = [v for v in rec.viol if v["case"] == case]
